@@ -567,3 +567,150 @@ func rtErrorSemantics(a *aggregator, v *rtView, maxLen int) {
 	a.Decide(len(bad) == 0 && n > 100, "R-error-message", construct, cfg, pos,
 		fmt.Sprintf("%d evaluations: every input of at most %d runes over {x, newline, a multi-byte rune, a quote}, every token begin ≤ end ≤ len (empty input, offset 0 and end of input included), Pretty on and off: rule name, definitional line/column of both ends, exactly the runes between them quoted, no panic", n, maxLen), strings.Join(bad, "; "))
 }
+
+// rtPrintSemantics: R-print-semantics — AST() followed by the node printer,
+// evaluated on every small derivation over a text with multi-byte runes:
+// one line per non-empty token in pre-order, indented by depth, showing the
+// rule's name and exactly the runes it spans.
+func rtPrintSemantics(a *aggregator, v *rtView, budget int) {
+	cfg := v.in.Name
+	construct := "node.Print shows each non-empty token's rule name and exact text, in tree order"
+	if !v.in.Cfg.Bools["Ast"] {
+		return
+	}
+	it := newInstInterp(v.in)
+	astFd, printFd := it.declOf("tokens.AST"), it.declOf("node.Print")
+	tokensT, tokenT := it.namedType("tokens"), it.namedType("token")
+	if astFd == nil || printFd == nil || tokensT == nil || tokenT == nil {
+		a.Und("R-print-semantics", construct, cfg, "", "tokens.AST / node.Print / types not found")
+		return
+	}
+	pos := v.in.srcPos(printFd.Pos())
+	und := ""
+	var names []string
+	func() {
+		defer func() {
+			if p := recover(); p != nil {
+				if u, ok := p.(undecided); ok {
+					und = u.msg
+					return
+				}
+				panic(p)
+			}
+		}()
+		if !it.globalInit(instFiles(v.in), "rul3s") {
+			und = "the rule-name table rul3s was not found"
+			return
+		}
+		if s, ok := it.globals[it.pkg.Scope().Lookup("rul3s")].v.(*SliceV); ok {
+			for _, e := range s.elems {
+				n, _ := e.(string)
+				names = append(names, n)
+			}
+		}
+	}()
+	if und == "" && len(names) < 2 {
+		und = "the rule-name table has fewer than two entries"
+	}
+	if und != "" {
+		a.Und("R-print-semantics", construct, cfg, pos, und)
+		return
+	}
+	writer := &Ext{"model writer"}
+	write := func(it *Interp, s string) []Value {
+		it.out.WriteString(s)
+		return []Value{int64(len(s)), Nil{}}
+	}
+	it.natives["fmt.Fprint"] = func(it *Interp, args []Value) []Value {
+		if args[0] != Value(writer) {
+			panic(undecided{"fmt.Fprint to another writer"})
+		}
+		var gv []any
+		for _, x := range args[1:] {
+			gv = append(gv, it.goValue(x))
+		}
+		return write(it, fmt.Sprint(gv...))
+	}
+	it.natives["fmt.Fprintf"] = func(it *Interp, args []Value) []Value {
+		if args[0] != Value(writer) {
+			panic(undecided{"fmt.Fprintf to another writer"})
+		}
+		return write(it, it.sprintf(args[1:]))
+	}
+	text := []rune("aé世\"\n𝄞bcdefghij")
+	var next int
+	shapes := genTrees(budget, 0, &next)
+	var bad []string
+	n := 0
+	for _, sh := range shapes {
+		if und != "" {
+			break
+		}
+		d := sh.clone()
+		cnt := 0
+		var post []*dnode
+		d.number(&cnt, &post)
+		if d.begin == d.end || d.end > len(text) {
+			continue
+		}
+		for _, t := range post {
+			t.rule = 1 + (t.rule-1)%(len(names)-1)
+		}
+		func() {
+			defer func() {
+				if p := recover(); p != nil {
+					switch x := p.(type) {
+					case nilDeref:
+						bad = append(bad, fmt.Sprintf("printing dereferences nil at %s for %s", x.pos, d))
+					case goPanic:
+						bad = append(bad, fmt.Sprintf("printing panics (%s at %s) for %s", x.msg, x.pos, d))
+					case undecided:
+						und = x.msg
+					default:
+						panic(p)
+					}
+				}
+			}()
+			ts := it.newObj(tokensT)
+			list := &SliceV{elems: []Value{}}
+			for _, t := range post {
+				to := it.newObj(tokenT)
+				to.field("pegRule").v = int64(t.rule)
+				to.field("begin").v = int64(t.begin)
+				to.field("end").v = int64(t.end)
+				list.elems = append(list.elems, to)
+			}
+			ts.field("tree").v = list
+			root := it.callDecl(astFd, ts)[0]
+			it.out = &strings.Builder{}
+			it.callDecl(printFd, root, writer, string(text))
+			got := it.out.String()
+			n++
+			var want strings.Builder
+			var walk func(x *dnode, depth int)
+			walk = func(x *dnode, depth int) {
+				if x.begin == x.end {
+					return
+				}
+				want.WriteString(strings.Repeat(" ", depth) + names[x.rule] + " " + strconv.Quote(string(text[x.begin:x.end])) + "\n")
+				for _, k := range x.kids {
+					walk(k, depth+1)
+				}
+			}
+			walk(d, 0)
+			if got != want.String() {
+				bad = append(bad, fmt.Sprintf("derivation %s over %q: printed %q, expected %q", d, string(text), got, want.String()))
+			}
+		}()
+	}
+	if und != "" {
+		a.Und("R-print-semantics", construct, cfg, pos, und)
+		return
+	}
+	sort.Slice(bad, func(i, j int) bool { return len(bad[i]) < len(bad[j]) })
+	if len(bad) > 3 {
+		bad = append(bad[:3], fmt.Sprintf("… %d more", len(bad)-3))
+	}
+	a.Decide(len(bad) == 0 && n > 100, "R-print-semantics", construct, cfg, pos,
+		fmt.Sprintf("%d derivations over a text with 2-, 3- and 4-byte runes, a quote and a newline: the printed tree is the pre-order list of non-empty tokens, one per line, indented by depth, each with its rule's name and the quoted runes [begin,end)", n), strings.Join(bad, "; "))
+}
